@@ -324,6 +324,7 @@ def check(env, rep, tier):
                    {"file": b["span"]["f"], "line": b["span"]["l"], "fn": b["path"]}, sample={"rule": "C19.6", "adapter": b["path"], "none_paths": n_none})
         rep.floor("C19.6", "option-flattening iterators", n_ad, 2)
         check_generic_view(prog, rep)
+        check_raw_add(prog, rep)
         # ---- C19.7 sorted-options marker justified by the container
         a = prog.adts.get("packet::Packet")
         has_marker = any(im.get("trait", "").endswith("WithSortedOptions") and prog.types[im["self_ty"]]["s"] == "packet::Packet" for im in prog.impls)
@@ -561,6 +562,60 @@ def enum_leaves(I, st, ty, depth=0):
         for c in combos:
             out.append(EnumV(v.path, {vi: StructV(c)}, v.ty))
     return out
+
+
+def check_raw_add(prog, rep):
+    """C19.12: the raw adder appends - Packet::add_option replaces (BTreeMap::insert) the list under its number only
+    on a path where a lookup *under that number* has just come back empty; otherwise values added earlier (a path's
+    first segments, when a higher-numbered option is already there) are lost"""
+    b = find_body(prog, "packet::Packet::add_option")
+    if b is None:
+        rep.missing("C19.12", "Packet::add_option")
+        return
+    I = new_interp(prog)
+    I.no_join_bodies.add(b["id"])
+    st = State()
+    args = [I.mat(st, prog.ty(b["locals"][i + 1]["ty"]), "a%d" % i) for i in range(b["arg_count"])]
+    import summaries2
+    keyed = ("alloc::collections::btree::map::BTreeMap::<K, V, A>::get_mut", "alloc::collections::btree::map::BTreeMap::<K, V, A>::get",
+             "alloc::collections::btree::map::BTreeMap::<K, V, A>::contains_key")
+    base_get = summaries2.m_map_get
+    keys = {}
+
+    def key_of(I_, s_, a):
+        v = I_.read(s_, a.place) if isinstance(a, RefV) else a
+        return v.aff if isinstance(v, IntV) else None
+
+    def m_get(I_, s_, call):
+        k = key_of(I_, s_, call.args[1]) if len(call.args) > 1 else None
+        r = base_get(I_, s_, call) if not call.path.endswith("contains_key") else None
+        if r is None:
+            from summaries import boolv
+            s2 = s_.copy()
+            r = [(s_, boolv(False)), (s2, boolv(True))]
+            r[0][0].ghost["absent-key"] = k
+            return r
+        for s2, v in r:
+            if isinstance(v, EnumV) and list(v.variants) == [0]:
+                s2.ghost["absent-key"] = k
+        return r
+    for pth in keyed:
+        I.extra_models[pth] = m_get
+    bad, n_ins = [], [0]
+
+    def hook(I_, s_, call, cbody):
+        if call.path == "alloc::collections::btree::map::BTreeMap::<K, V, A>::insert" and call.ctx.depth == 0:
+            n_ins[0] += 1
+            k = call.args[1].aff if len(call.args) > 1 and isinstance(call.args[1], IntV) else None
+            ak = s_.ghost.get("absent-key")
+            if k is None or ak is None or not (ak == k or s_.entails_eq(ak, k)):
+                bad.append(call.site)
+    I.call_hooks.append(hook)
+    I, res = run(prog, b, args=args, st=st, I=I)
+    rep.ob("C19.12", "raw-add-appends", not bad and bool(res),
+           "Packet::add_option can replace the list stored under its number without a lookup under that number having found it absent "
+           "(insert at %s): values added earlier are dropped when the option is not the last key" % sorted(set("%s:%s" % (x.get("file"), x.get("line")) for x in bad))[:2],
+           {"file": b["span"]["f"], "line": b["span"]["l"], "fn": b["path"]}, sample={"rule": "C19.12", "inserts": n_ins[0], "paths": len(res)})
 
 
 def check_generic_view(prog, rep):
